@@ -202,12 +202,17 @@ func (m *Minifier) apply(vis *minifyVisitor) (madeReplacements bool) {
 	if len(replacements) == 0 {
 		return false
 	}
-	// sort by depth
+	// sort by depth, then by type name; replacements were collected from a map, so the order must be
+	// total: two different selection sets on the same type at the same depth are ordered by their
+	// first occurrence in the document, otherwise the fragment names would follow map iteration order
 	slices.SortStableFunc(replacements, func(a, b *stats) int {
-		if a.depth == b.depth {
-			return strings.Compare(b.enclosingTypeName, a.enclosingTypeName)
+		if a.depth != b.depth {
+			return b.depth - a.depth
 		}
-		return b.depth - a.depth
+		if c := strings.Compare(b.enclosingTypeName, a.enclosingTypeName); c != 0 {
+			return c
+		}
+		return a.items[0].selectionSet - b.items[0].selectionSet
 	})
 	for _, s := range replacements {
 		m.replaceItems(s)
